@@ -137,14 +137,17 @@ def fam_all(maxk):
             for sh in R.all_shadings(k)]
 
 
-def fam_k(k, sizes, biv=True, codebase=True):
+def fam_k(k, sizes, biv=True, codebase=True, lines=None):
+    """Mesh patterns of length k: the shadings with the given numbers of cells, the unions of
+    full columns/rows (all, or those with a number of lines in `lines`), the code-base patterns."""
     out = []
     adjs = list(subsets(range(k + 1)))
     for p in R.perms(k):
         for sh in shadings_by_size(k, sizes):
             out.append(mesh_spec(p, sh))
         if biv:
-            out += [mesh_spec(p, biv_shading(k, ai, av)) for ai in adjs for av in adjs]
+            out += [mesh_spec(p, biv_shading(k, ai, av)) for ai in adjs for av in adjs
+                    if lines is None or len(ai) + len(av) in lines]
         if codebase:
             out += [mesh_spec(p, sh) for q, sh in CODEBASE if q == p]
     return dedup(out)
@@ -323,9 +326,11 @@ def unsound_witness(qspec, pspec, occ):
     return None
 
 
-def check_mim(part, qspec, q, pspec, p, strong, derived, sub="mim"):
+def check_mim(part, qspec, q, pspec, p, strong, derived, sub="mim", qsh=None):
     """One ordered pair: is q.occurrences_in(p) exactly the pointwise-sound classical occurrences?"""
-    qp, qsh = qspec[1], spec_shading(qspec)
+    qp = qspec[1]
+    if qsh is None:
+        qsh = spec_shading(qspec)
     pp = pspec[1]
     cl = classical(qp, pp)
     exp = [occ for occ in cl if qsh <= strong[occ]]
@@ -381,21 +386,21 @@ def shard_mim(shard):
     """p in a slice of family pname, q in all of family qname."""
     sub, qname, pname, lo, hi, dmode = shard
     part = Partial()
-    qs = _FAM[qname]
+    qs = [(qspec, q, spec_shading(qspec)) for qspec, q in _FAM[qname]]
     for pspec, p in _FAM[pname][lo:hi]:
         strong = strong_of(pspec)
-        npsh = len(pspec[2])
-        for qspec, q in qs:
+        npsh = len(spec_shading(pspec))
+        for qspec, q, qsh in qs:
             if dmode == "all":
                 derived = True
             elif dmode == "some":
-                derived = len(qspec[1]) <= 1 or len(pspec[1]) <= 1 or len(qspec[2]) <= 2
+                derived = len(qspec[1]) <= 1 or len(pspec[1]) <= 1 or len(qsh) <= 2
             else:
                 derived = False
-            exp = check_mim(part, qspec, q, pspec, p, strong, derived, sub)
+            exp = check_mim(part, qspec, q, pspec, p, strong, derived, sub, qsh)
             # non-trivial: q shaded, and among the classical occurrences some are kept, some not
             nt = 0
-            if exp is not None and qspec[2]:
+            if exp is not None and qsh:
                 ncl = len(classical(qspec[1], pspec[1]))
                 if 0 < len(exp) < ncl or (exp and npsh < (len(pspec[1]) + 1) ** 2 and len(qspec[1]) >= 1):
                     nt = 1
@@ -434,7 +439,7 @@ def shard_multi_targets(shard):
     """q.contained_in(p1, p2) / q.avoided_by(p1, p2): one small pattern against two targets."""
     qname, pname, lo, hi = shard
     part = Partial()
-    ps = _FAM[pname]
+    ps = [(s, o) for s, o in _FAM[pname] if s[0] != "perm"]   # a Perm target is a TEXT (C03), not a pattern
     strongs = [strong_of(ps_) for ps_, _ in ps]
     for qspec, q in _FAM[qname][lo:hi]:
         qsh = spec_shading(qspec)
@@ -479,14 +484,12 @@ def typed_small(maxk):
 
 
 MULTI_Q = [
-    mesh_spec((), []), mesh_spec((), [(0, 0)]),
-    mesh_spec((0,), []), mesh_spec((0,), [(0, 0)]), mesh_spec((0,), [(1, 1)]),
-    mesh_spec((0,), [(0, 1), (1, 1)]), mesh_spec((0,), [(0, 0), (0, 1), (1, 0), (1, 1)]),
-    mesh_spec((0, 1), []), mesh_spec((1, 0), []), mesh_spec((0, 1), [(1, 1)]),
-    mesh_spec((1, 0), [(1, 1)]), mesh_spec((0, 1), [(0, 0), (0, 1), (0, 2)]),
-    mesh_spec((1, 0), [(0, 2), (1, 2), (2, 2)]), mesh_spec((0, 1), [(2, 2)]),
-    ("perm", (0,), None, None), ("perm", (0, 1), None, None),
-    ("vinc", (0, 1), (1,), ()), ("covinc", (1, 0), (), (1,)),
+    mesh_spec((), [(0, 0)]),
+    mesh_spec((0,), []), mesh_spec((0,), [(0, 0)]), mesh_spec((0,), [(0, 1), (1, 1)]),
+    mesh_spec((0,), [(0, 0), (0, 1), (1, 0), (1, 1)]),
+    mesh_spec((0, 1), [(1, 1)]), mesh_spec((1, 0), [(1, 1)]),
+    mesh_spec((0, 1), [(0, 0), (0, 1), (0, 2)]), mesh_spec((1, 0), [(0, 2), (1, 2), (2, 2)]),
+    ("perm", (0, 1), None, None), ("vinc", (0, 1), (1,), ()), ("covinc", (1, 0), (), (1,)),
 ]
 
 
@@ -511,20 +514,18 @@ def run(ctx, only=None):
         "exactness of occurrences_in(MeshPatt) (not only soundness) is demanded because its docstring "
         "defines it through sub_mesh_pattern, which the property requires to be exact",
     ]
-    pre = Partial()
-
     # ---- families (library objects are built here, before forking) ---------------------
     build_family("M2", fam_all(2), ctx)
     f3_sub = fam_k(3, (0, 1, 2, 14, 15, 16))
     if quick:
-        p3 = fam_k(3, (0, 1, 15, 16))
+        p3 = fam_k(3, (0, 1, 15, 16), lines=(1, 2, 7, 8))
         q2 = dedup(fam_all(1) + fam_k(2, (0, 1, 8, 9)))
         q3 = fam_k(3, (0, 1), biv=False)
         f4 = fam_k(4, (0, 24, 25), biv=False)
     else:
-        p3 = fam_k(3, (0, 1, 2, 13, 14, 15, 16))
+        p3 = fam_k(3, (0, 1, 2, 14, 15, 16))
         q2 = fam_all(2)
-        q3 = fam_k(3, (0, 1, 2, 16), biv=False)
+        q3 = fam_k(3, (0, 1, 16), biv=False)
         f4 = fam_k(4, (0, 1, 23, 24, 25), biv=False)
     build_family("F3", f3_sub, ctx)
     build_family("P3", p3, ctx)
@@ -534,7 +535,7 @@ def run(ctx, only=None):
     build_family("T2", typed_small(2), ctx)
     build_family("B2", [s for s in typed_small(2) if s[0] != "perm"], ctx)
     build_family("MQ", MULTI_Q, ctx)
-    del pre
+    build_family("M2s", dedup(fam_all(1) + fam_k(2, (0, 1, 2, 7, 8, 9), biv=False)) if quick else fam_all(2), ctx)
 
     # ---- reference containment masks (for `implies`) ------------------------------------
     L = 5 if quick else 6
@@ -594,18 +595,21 @@ def run(ctx, only=None):
         jobs += [(shard_mim, ("mim3", "Q3", "M2", lo, min(n2, lo + 64), "none"))
                  for lo in range(0, n2, 64)]
         ctx.bounds["mim3"] = {"p": "%d patterns of length 3 (%s shaded cells, unions of full rows/columns, code base)"
-                                   % (n, "0/1/15/16" if quick else "0/1/2/13/14/15/16"),
+                                   % (n, "0/1/15/16 shaded cells; 1, 2, 7 or 8 full lines" if quick else "0/1/2/14/15/16"),
                               "q": "%d patterns of length <= 2 and %d of length 3" % (len(_FAM["Q2"]), len(_FAM["Q3"])),
                               "also": "q of length 3 against all p of length <= 2 (never occurs)"}
 
     if want("types"):
-        n = len(_FAM["M2"])
-        jobs += [(shard_mim, ("types", "T2", "M2", lo, min(n, lo + 24), "some")) for lo in range(0, n, 24)]
+        n = len(_FAM["M2s"])
+        jobs += [(shard_mim, ("types", "T2", "M2s", lo, min(n, lo + 24), "some")) for lo in range(0, n, 24)]
         nb = len(_FAM["B2"])
         jobs += [(shard_mim, ("types", "T2", "B2", lo, min(nb, lo + 24), "all")) for lo in range(0, nb, 24)]
         ctx.bounds["types"] = ("q as Perm / BivincularPatt / VincularPatt / CovincularPatt of length <= 2 "
-                               "(%d objects) in every mesh pattern of length <= 2 and in every bivincular-"
-                               "class object of length <= 2 (%d)" % (len(_FAM["T2"]), nb))
+                               "(%d objects) in %s and in every bivincular-"
+                               "class object of length <= 2 (%d)" % (
+                                   len(_FAM["T2"]),
+                                   "every mesh pattern of length <= 1 and those of length 2 with <=2 or >=7 cells"
+                                   if quick else "every mesh pattern of length <= 2", nb))
 
     if want("multi"):
         n = len(_FAM["M2"])
